@@ -66,3 +66,9 @@ def run(ctx):
     ctx.floor("K22", 1)
     LK.k23_random_tree_marks_when_expanded(ctx)
     ctx.floor("K23", 2)
+    # rules shared after round 11: the clause is necessary for this property as well
+    from ..engines import closure as G5
+    G5.g4_rules_from_labels(ctx)
+    LK.k8_strategy_parent_pairing(ctx, modules=("specification_extrator", "rule_db.base"))
+    ctx.floor("G4", 2)
+    ctx.floor("K8", 3)
